@@ -276,3 +276,76 @@ Proof.
   apply role_eqb_eq in A. apply Nat.eqb_eq in B, D, F, L.
   repeat split; auto. eapply run_fixed_sound; eauto.
 Qed.
+
+(* ---------- checked runs: no hypothesis on configurations ---------- *)
+
+(* A run is "checked" (Safety.steps_ok) if each of its steps elects only the first leader of a term
+   and commits only a prefix comparable with the committed log.  Both conditions are theorems under
+   Overlap (Pres1.overlap_noclash, Inv2.overlap_commitok) and are decided by the acceptor on every
+   step it accepts (AcceptorSound.apply_label_noclash / apply_label_commitok), so the results below
+   hold for EVERY accepted implementation trace, whatever membership changes it contains.
+   Leader completeness is not among them: it remains under the Overlap hypothesis. *)
+Section CheckedRuns.
+Variable cf : config.
+Variable log0 : list entry.
+Hypothesis OK : init_ok cf log0.
+Variable s : gstate.
+Hypothesis R : steps_ok (init cf log0) s.
+
+Let IJ : inv1 s /\ inv2 s := steps_ok_inv _ _ (init_inv1 cf log0 OK) (init_inv2 cf log0 OK) R.
+
+Theorem election_safety_checked i j :
+  rl (nodes s i) = Leader -> rl (nodes s j) = Leader -> cur (nodes s i) = cur (nodes s j) -> i = j.
+Proof. apply (election_safety s (proj1 IJ)). Qed.
+
+Theorem election_safety_history_checked t c el q c' el' q' :
+  In (t, c, el, q) (leaders s) -> In (t, c', el', q') (leaders s) -> c = c'.
+Proof. apply (election_safety_history s (proj1 IJ)). Qed.
+
+Theorem one_vote_per_term_checked j t c c' : In (j, t, c) (grants s) -> In (j, t, c') (grants s) -> c = c'.
+Proof. apply (one_vote_per_term s (proj1 IJ)). Qed.
+
+Theorem log_matching_checked i j k e e' :
+  nth_error (log (nodes s i)) k = Some e -> nth_error (log (nodes s j)) k = Some e' -> eterm e = eterm e' ->
+  firstn (S k) (log (nodes s i)) = firstn (S k) (log (nodes s j)).
+Proof. apply (log_matching s (proj1 IJ)). Qed.
+
+Theorem state_machine_safety_checked i j k e e' :
+  k < commit (nodes s i) -> k < commit (nodes s j) ->
+  nth_error (log (nodes s i)) k = Some e -> nth_error (log (nodes s j)) k = Some e' -> e = e'.
+Proof. apply (state_machine_safety s (proj2 IJ)). Qed.
+
+Theorem committed_prefix_global_checked j :
+  commit (nodes s j) <= length (log (nodes s j)) /\
+  prefix (firstn (commit (nodes s j)) (log (nodes s j))) (gcommit s).
+Proof. apply (committed_in_gcommit s (proj2 IJ)). Qed.
+
+Theorem applied_prefix_global_checked j : app s j <= length (gcommit s).
+Proof. apply (applied_in_gcommit s (proj2 IJ)). Qed.
+
+Theorem committed_log_grows_checked s' : steps_ok s s' -> prefix (gcommit s) (gcommit s').
+Proof. apply (gcommit_grows_ok s s' (proj1 IJ) (proj2 IJ)). Qed.
+
+Theorem applied_never_replaced_checked s' i j k :
+  steps_ok s s' -> k < app s i -> k < app s' j -> nth_error (gcommit s') k = nth_error (gcommit s) k.
+Proof.
+  intros H Hi Hj. symmetry. apply prefix_nth_error_lt.
+  - now apply committed_log_grows_checked.
+  - pose proof (applied_prefix_global_checked i). lia.
+Qed.
+
+End CheckedRuns.
+
+(* the acceptor produces checked runs *)
+Theorem accepted_run_checked cf log0 ls s : run (init cf log0) ls = Some s -> steps_ok (init cf log0) s.
+Proof. apply run_ok. Qed.
+
+(* the example run contains no configuration change, but it is also a checked run *)
+Example ex_checked : exists s, steps_ok (init ex_cf []) s /\ rl (nodes s 2) = Leader /\ length (gcommit s) = 2.
+Proof.
+  pose proof ex_run as H. destruct (run (init ex_cf []) ex_labels) as [s|] eqn:E; [|discriminate].
+  exists s. unfold ex_check in H. rewrite !andb_true_iff in H.
+  destruct H as [[[[[[[[[A B] C] D] F] G] _] _] _] O].
+  apply role_eqb_eq in A. apply Nat.eqb_eq in F.
+  repeat split; auto. eapply run_ok; eauto.
+Qed.
